@@ -1,85 +1,93 @@
 ----------------------------- MODULE LspSession -----------------------------
-(* The life cycle of one templ document in the LSP proxy (cmd/templ/lspcmd/proxy/server.go: Initialize / Initialized
+(* The life cycle of templ documents in the LSP proxy (cmd/templ/lspcmd/proxy/server.go: Initialize / Initialized
    with the workspace preload, DidOpen, DidChange, DidClose), above the edit arithmetic of LspDoc.tla.
 
    C17 starts with "after any sequence of OPEN, full-replace and incremental range edits ...": what the server holds
    after an open must be what the editor sent, whatever the server held before -- in particular the copy the
    workspace preload read from disk, which differs from the editor's text when the buffer is unsaved or the file
    changed after the scan.  LspDoc.tla decides what one edit does to the line table; this module decides which
-   text the line table is built from, along every order of preload, open, change, close and re-open.
+   text the line table is built from, along every order of preload, open, change, close and re-open, for several
+   documents side by side (a step on one document leaves the copies of the others alone).
 
-   Texts are opaque here (model values); a Change replaces the editor's text by another text, the harness sends it
-   either as a full replacement or as the incremental edit that turns the old text into the new one.
+   Texts are opaque here; a Change replaces the editor's text by another text, the harness sends it either as a
+   full replacement or as the incremental edit that turns the old text into the new one.
 
    Bound to the code by replaying simulated behaviours on a real proxy.Server (stub gopls, stub client) and comparing
-   the server's copy (TemplSource) with the editor's text after every step.                                       *)
+   the server's copy (TemplSource) of EVERY document with the editor's text after every step.                     *)
 EXTENDS Naturals, Sequences, TLC, Json
 
-CONSTANTS Texts,      \* document texts (strings)
+CONSTANTS Docs,       \* document names
+          Texts,      \* document texts (strings)
           OpenRule,   \* "replace": as coded.  "keepPreloaded": a defective design in which DidOpen keeps the copy the
                       \* preload made (negative configuration: must be rejected by ServerTracksEditor)
           HistLen
 
 None == "none"
 
-VARIABLES st,       \* "start" (before Initialize), "idle" (initialised, document not open), "open"
-          editor,   \* the text the editor shows (None while the document is not open)
-          server,   \* the text the server's copy holds (None: no copy; "diverged": a copy that tracks nothing)
-          disk,     \* the text of the file on disk when the workspace was scanned (None: no such file)
+VARIABLES started,  \* Initialize + Initialized done
+          open,     \* [Docs -> BOOLEAN]
+          editor,   \* [Docs -> text the editor shows (None while the document is not open)]
+          server,   \* [Docs -> text the server's copy holds (None: no copy; "diverged": a copy that tracks nothing)]
+          disk,     \* [Docs -> text of the file on disk when the workspace was scanned (None: no such file)]
           hist
-vars == <<st, editor, server, disk, hist>>
+vars == <<started, open, editor, server, disk, hist>>
 
-Init == /\ st = "start" /\ editor = None /\ server = None
-        /\ disk \in Texts \cup {None}
+Init == /\ started = FALSE
+        /\ open = [d \in Docs |-> FALSE]
+        /\ editor = [d \in Docs |-> None]
+        /\ server = [d \in Docs |-> None]
+        /\ disk \in [Docs -> Texts \cup {None}]
         /\ hist = <<>>
 
 Log(e) == hist' = Append(hist, e)
 
 \* Initialize + Initialized: with preload the server opens every templ file of the workspace from disk
 Start(preload) ==
-    /\ st = "start"
-    /\ st' = "idle"
-    /\ server' = IF preload /\ disk # None THEN disk ELSE None
-    /\ UNCHANGED <<editor, disk>>
-    /\ Log([op |-> "start", preload |-> preload, disk |-> disk])
+    /\ ~started
+    /\ started' = TRUE
+    /\ server' = [d \in Docs |-> IF preload THEN disk[d] ELSE None]
+    /\ UNCHANGED <<open, editor, disk>>
+    /\ Log([op |-> "start", preload |-> preload])
 
-Open(t) ==
-    /\ st = "idle"
-    /\ st' = "open"
-    /\ editor' = t
-    /\ server' = IF OpenRule = "keepPreloaded" /\ server # None THEN server ELSE t
-    /\ UNCHANGED disk
-    /\ Log([op |-> "open", text |-> t])
+Open(d, t) ==
+    /\ started /\ ~open[d]
+    /\ open' = [open EXCEPT ![d] = TRUE]
+    /\ editor' = [editor EXCEPT ![d] = t]
+    /\ server' = [server EXCEPT ![d] = IF OpenRule = "keepPreloaded" /\ server[d] # None THEN server[d] ELSE t]
+    /\ UNCHANGED <<started, disk>>
+    /\ Log([op |-> "open", doc |-> d, text |-> t])
 
 \* full: the change carries the whole text; otherwise it is the edit that turns the old text into the new one,
 \* which only gives the new text when it is applied to the old one
-Change(t, full) ==
-    /\ st = "open"
-    /\ editor' = t
-    /\ server' = IF full \/ server = editor THEN t ELSE "diverged"
-    /\ UNCHANGED <<st, disk>>
-    /\ Log([op |-> "change", text |-> t, full |-> full])
+Change(d, t, full) ==
+    /\ open[d]
+    /\ editor' = [editor EXCEPT ![d] = t]
+    /\ server' = [server EXCEPT ![d] = IF full \/ server[d] = editor[d] THEN t ELSE "diverged"]
+    /\ UNCHANGED <<started, open, disk>>
+    /\ Log([op |-> "change", doc |-> d, text |-> t, full |-> full])
 
-Close ==
-    /\ st = "open"
-    /\ st' = "idle"
-    /\ editor' = None
-    /\ server' = None                \* DidClose deletes the copy
-    /\ UNCHANGED disk
-    /\ Log([op |-> "close"])
+Close(d) ==
+    /\ open[d]
+    /\ open' = [open EXCEPT ![d] = FALSE]
+    /\ editor' = [editor EXCEPT ![d] = None]
+    /\ server' = [server EXCEPT ![d] = None]                \* DidClose deletes the copy
+    /\ UNCHANGED <<started, disk>>
+    /\ Log([op |-> "close", doc |-> d])
 
 Next == /\ Len(hist) < HistLen
         /\ \/ \E p \in BOOLEAN : Start(p)
-           \/ \E t \in Texts : Open(t)
-           \/ \E t \in Texts, f \in BOOLEAN : Change(t, f)
-           \/ Close
+           \/ \E d \in Docs, t \in Texts : Open(d, t)
+           \/ \E d \in Docs, t \in Texts, f \in BOOLEAN : Change(d, t, f)
+           \/ \E d \in Docs : Close(d)
 Spec == Init /\ [][Next]_vars
 
 -----------------------------------------------------------------------------
-ServerTracksEditor == st = "open" => server = editor          \* C17, at the level of the session
-NoCopyWhenClosed == (st = "idle" /\ editor = None /\ hist # <<>> /\ hist[Len(hist)].op = "close") => server = None
+ServerTracksEditor == \A d \in Docs : open[d] => server[d] = editor[d]          \* C17, at the level of the session
+\* a step on one document leaves the other documents' copies alone
+Independent == [][\A d \in Docs : (hist' # hist /\ hist'[Len(hist')].op \in {"open", "change", "close"} /\ hist'[Len(hist')].doc # d)
+                                    => server'[d] = server[d]]_vars
 
-View == <<st, editor, server, disk>>
+View == <<started, open, editor, server, disk>>
 \* simulation: print each finished behaviour for the replay harness
 PrintHist == (Len(hist) = HistLen) => PrintT(<<"HIST", ToJson([disk |-> disk, steps |-> hist])>>)
 =============================================================================
